@@ -128,7 +128,8 @@ static void generate_db(const char *dir) {
     else if (round == 1) ldb_test_compact_range(h.db, 0, NULL, NULL);
     else if (round == 2 && vr_chance(&R, 500)) ldb_test_compact_range(h.db, 0, NULL, NULL);
   }
-  /* a live WAL: several records, one of them spanning two 32 KiB blocks */
+  /* a live WAL: several records, one of them spanning two (odd databases) or four (even databases) 32 KiB
+     blocks: FIRST, MIDDLE and LAST fragments with whole blocks in between that an alteration can wipe out */
   for (i = 0; i < 6; i++) issue_batch(&h, 1 + (int)vr_uniform(&R, 6));
   {
     batch_t *b;
@@ -136,17 +137,17 @@ static void generate_db(const char *dir) {
     char kb[32];
     ldb_slice_t k, v;
     uint64_t idv;
-    int j;
+    int j, nbig = (g_db % 2 == 0) ? 75 : 30;
     if (nbatches == capbatches) { capbatches *= 2; batches = realloc(batches, (size_t)capbatches * sizeof(batch_t)); }
     b = &batches[nbatches];
     b->id = ++nbatches;
-    b->nupd = 30;
-    b->upd = calloc(31, sizeof(upd_t));
+    b->nupd = nbig;
+    b->upd = calloc((size_t)nbig + 1, sizeof(upd_t));
     idv = (uint64_t)b->id;
     k = ldb_slice(kb, marker_key(kb, b->id));
     v = ldb_slice(&idv, 8);
     ldb_batch_put(wb, &k, &v);
-    for (j = 0; j < 30; j++) {
+    for (j = 0; j < nbig; j++) {
       upd_t *u = &b->upd[j];
       u->key = (int)vr_uniform(&R, NKEYS);
       u->vlen = 1200 + vr_uniform(&R, 400);
